@@ -102,6 +102,16 @@ Definition remap_tbl (f k : N) (v : Z) : option Z :=
   | 2%N => Some (Z.of_N k * 1000 + v)
   | _ => if Z.even v then None else Some (2 * v + 1)
   end.
+(* the remapping functions of the concurrent programs (harness cremap): a computed value moves its
+   argument into a higher band, so that no two writes of a run produce the same value for a key *)
+Definition cremap_tbl (f k : N) (v : Z) : option Z :=
+  match f with
+  | 0%N => None
+  | 1%N => Some (v + 1000000)
+  | 2%N => Some (v + 2000000)
+  | _ => if Z.even v then None else Some (v + 3000000)
+  end.
+
 Definition keep_tbl (p k : N) (v : Z) : bool :=
   match p with
   | 0%N => false
